@@ -254,6 +254,9 @@ func genRepo(r *rand.Rand, i int) *repoCase {
 	h := gen.RandomHistory(r, gen.HistOpts{N: 3 + r.Intn(3), MergeProb: 0.2, SkewTime: i%3 == 0, Files: 3 + r.Intn(6),
 		Path: gen.PathOpts{Depth: 3, Symlinks: true, Exec: true}, Branches: 2})
 	rc := &repoCase{h: h}
+	for ci := range h.Commits { // author time differs from committer time: archives must use the committer's
+		h.Commits[ci].ATime = h.Commits[ci].Time - int64(1000*(ci+1))
+	}
 	tip := h.Branches["master"]
 	t := h.Commits[tip].Tree
 	feat := map[string]bool{}
@@ -274,6 +277,10 @@ func genRepo(r *rand.Rand, i int) *repoCase {
 	}
 	if r.Intn(3) == 0 {
 		add("sub/module", gen.File{Mode: "160000", Content: []byte("1234567890abcdef1234567890abcdef12345678")}, "gitlink")
+	}
+	if r.Intn(2) == 0 {
+		add("bin/run.sh", gen.File{Mode: "100755", Content: []byte("#!/bin/sh\necho hi\n")}, "exec")
+		add("tool", gen.File{Mode: "100755", Content: []byte("x")}, "exec")
 	}
 	if r.Intn(3) == 0 {
 		add("empty.txt", gen.File{Mode: "100644", Content: []byte{}}, "empty-file")
